@@ -90,6 +90,36 @@ def check(tier, seed):
                               kind=f'len<{256 if n < 256 else 1001 if n <= 1000 else 65536}/{style}'))
             cases.append(Case('to_bytes-vs-wire-spec', f'wire {c} {i} {C.hexs(p)}', impl.split(' ')[0] if not impl.startswith('!') else impl, desc,
                               nontrivial=False, kind='spec'))
+        # real message classes (with fields): payload set directly, including the EMPTY payload, must be serialised as it is
+        from .. import reflect as R_
+        mt = R_.message_table()
+        for name, e in sorted(mt.items()):
+            if e['kind'] == 'ctor-args':
+                continue
+            for n in (0, 1, rng.randrange(2, 40)):
+                p = gen_payload(rng, n, 'rand')
+
+                def run(cls=e['cls'], p=p):
+                    f = cls()
+                    f.data = bytearray(p)
+                    m1 = bytes(f.to_bytes())
+                    m2 = bytes(f.to_bytes())
+                    return f'{C.hexs(m1)} {C.hexs(m2)} {C.hexs(f.data)}'
+                c, i = e['cid']
+                cases.append(Case('to_bytes-real-class', f'tobytes {c} {i} {C.hexs(p)}', C.guarded(run), {'class': name, 'len': n, 'payload_hex': C.hexs(p), 'cls': c, 'id': i, 'style': 'rand'}, nontrivial=n >= 1, kind='real-class'))
+        # a never-packed frame whose default payload buffer is extended in place must not affect other fresh frames
+        from ubxlib.cid import UbxCID
+        from ubxlib.frame import UbxFrame
+        for _ in range(5):
+            Fx = type('Fx', (UbxFrame,), {'CID': UbxCID(10, 4), 'NAME': 'X'})
+            f1 = Fx()
+            ext = gen_payload(rng, rng.randrange(1, 9), 'rand')
+            f1.data += ext
+            r1 = bytes(f1.to_bytes())
+            f2 = Fx()
+            r2 = bytes(f2.to_bytes())
+            cases.append(Case('to_bytes-default-buffer', f'tobytes 10 4 {C.hexs(ext)}', f'{C.hexs(r1)} {C.hexs(r1)} {C.hexs(f1.data)}', {'cls': 10, 'id': 4, 'len': len(ext), 'payload_hex': C.hexs(ext), 'style': 'extend-default'}, kind='default-buffer'))
+            cases.append(Case('to_bytes-default-buffer', 'tobytes 10 4 -', f'{C.hexs(r2)} {C.hexs(r2)} -', {'cls': 10, 'id': 4, 'len': 0, 'payload_hex': '-', 'style': 'fresh-after-extend'}, kind='default-buffer', nontrivial=False))
         res.compare(cases)
         # real message classes: wire(CID, pack()) on freshly constructed frames
         res.notes['lengths_distinct'] = len(set(lens))
